@@ -13,6 +13,8 @@ mod c08;
 mod c09;
 mod c10;
 mod c12;
+mod c12b;
+mod c12k;
 mod c13;
 mod c14;
 mod c15;
